@@ -29,7 +29,7 @@ PARTITIONS = [
 ]
 FAULT_KINDS = ["preempt_line", "preempt_step", "task_switch_in_context", "thread_switch_in_context",
                "exception_in_body", "cancel_in_context", "nested_context", "spawn_child",
-               "set_inside_context"]
+               "set_inside_context", "to_thread_copy"]
 RULE = ("one run = 2-5 actors (real threads / asyncio tasks, optionally spawning children) executing seeded "
         "programs of nested enable_free_arithmetics blocks, sets, reads, raises and arithmetic probes under a "
         "seeded schedule of (actor, quantum) with pre-emption at de-duplicated line events inside physt; "
@@ -83,6 +83,9 @@ def gen_block(rng, depth, budget, spawnable, allow_raise):
             out.append({"op": "raise"})
         elif r < 0.97 and spawnable:
             out.append({"op": "spawn", "child": spawnable.pop(0)})
+        elif r < 0.985 and depth < 3:
+            # (ignored by thread actors) run a block in asyncio.to_thread: it sees a *copy* of the caller's context
+            out.append({"op": "to_thread", "body": gen_block(rng, depth + 1, budget, [], True)})
         else:
             out.append({"op": "read"})
     return out
@@ -317,8 +320,53 @@ class Interp:
                 raise AppError()
             elif op == "spawn":
                 await self.w.spawn(ctx, self, ins["child"])
+            elif op == "to_thread":
+                if self.actor.kind != "task":
+                    continue
+                await self.in_thread(ctx, ins["body"])
             else:
                 raise HarnessError(f"unknown instruction {op}")
+
+
+class _Inline:
+    """Actor stand-in for a block executed inside asyncio.to_thread: no scheduling points of its own."""
+
+    kind = "to_thread"
+
+    def __init__(self, aid):
+        self.aid = f"{aid}/to_thread"
+
+    async def point(self, reason="step"):
+        return None
+
+
+async def _in_thread(self, ctx, body):
+    """The block runs in a pool thread with a copy of the calling task's context: it starts from the task's
+    current value, and nothing it sets or enters is visible to the task afterwards."""
+    sub = Interp(self.w, _Inline(self.actor.aid), self.spec, self.model)
+    sub.depth = self.depth
+    ctx.fault("to_thread_copy")
+    ctx.ev(self.actor.aid, "to_thread:start", self.depth, str(self.model))
+
+    def run():
+        coro = sub.run_block(ctx, body)
+        try:
+            coro.send(None)
+        except StopIteration:
+            pass
+        else:
+            coro.close()
+            raise HarnessError("to_thread block awaited something real")
+
+    try:
+        await asyncio.to_thread(run)
+    except AppError:
+        ctx.ev(self.actor.aid, "to_thread:app-error", self.depth)
+    ctx.ev(self.actor.aid, "to_thread:end", self.depth, str(self.model))
+    self.check_read(ctx, "after-to_thread")
+
+
+Interp.in_thread = _in_thread
 
 
 class World:
@@ -482,7 +530,7 @@ def simplify(plan):
     def paths(block, prefix):
         for i, ins in enumerate(block):
             yield prefix + [i]
-            if ins["op"] == "with":
+            if ins["op"] in ("with", "to_thread"):
                 yield from paths(ins["body"], prefix + [i, "body"])
 
     for k in sorted(progs):
